@@ -72,6 +72,10 @@ class Scaler(Transformer):
             wghts: DataVarBound = feature_ones_like(X, self.feature_dims)
         else:
             wghts: DataVarBound = weights
+            # Weights computed from a coordinate (e.g. latitude) carry its name; they would
+            # be serialized as that coordinate instead of as a variable
+            if isinstance(wghts, xr.DataArray):
+                wghts = wghts.rename("weights_")
 
         return wghts
 
